@@ -7,6 +7,11 @@ gen_matrix(rng, C, **features) builds the matrix through the public API.  Featur
   multi_senders  receivers  free_signals  env_vars  signal_groups  cycle_times  initial_values
   unique_signal_names (matrix-wide)  digits (max significant digits of factor/offset)  explicit_limits
   mux_intel_unsigned (KCD)  unit_max (SYM: 16)  unique_id_numbers (XLS)
+  mux_choices (list drawn from when mux='mixed'; default none,none,simple,extended)
+  fd_j1939_exclusive (no frame is CAN FD and J1939 at once)  initial_on_grid (every signal's initial value inside its limits and on the raw grid)
+  len_choices (list of frame lengths drawn from, overrides max_len/fd for the length)
+  static_in_mux (default True; False: a multiplexed frame holds only the multiplexer and multiplexed signals)
+  float_signed_default (probability that a float signal keeps Signal's default is_signed=True; default: floats are unsigned)
 normal_form(db, ...) returns plain dicts/lists/strings only (JSON-able), decimals as normalised strings.
 """
 import decimal
@@ -120,7 +125,11 @@ def gen_matrix(rng, C, **ft):
         used_id_numbers.add(fid)
         max_len = g("max_len", 8)
         isfd = g("fd", False) and rng.random() < 0.4
-        if isfd and max_len > 8:
+        if isfd and isj and g("fd_j1939_exclusive", False):
+            isj = False   # DBC: VFrameFormat carries one value per frame, a frame is CAN FD or J1939, not both
+        if g("len_choices", None):
+            L = rng.choice(g("len_choices"))   # C19: any frame length the caller lists (1..64), independent of is_fd
+        elif isfd and max_len > 8:
             L = rng.choice([8, 12, 16, 20, 24, 32, 48, 64])
         else:
             L = rng.randrange(1, min(max_len, 8) + 1)
@@ -142,7 +151,7 @@ def gen_matrix(rng, C, **ft):
         # ---- signals ----
         mux = g("mux", "none")
         if mux == "mixed":
-            mux = rng.choice(["none", "none", "simple", "extended"])
+            mux = rng.choice(g("mux_choices", ["none", "none", "simple", "extended"]))
         le_prob = 1.0 if not g("motorola", True) else (0.0 if not g("intel", True) else 0.5)
         used_sig = used_sig_global if g("unique_signal_names", False) else set()
         sigs = []
@@ -162,6 +171,8 @@ def gen_matrix(rng, C, **ft):
                 sigs.append(mux_sig)
         static_lay = layouts.gen_layout(rng, L, max_signals=rng.randrange(1, 5), le_prob=le_prob, free=free,
                                         max_width=g("max_width", 64))
+        if mux_sig is not None and not g("static_in_mux", True):
+            static_lay = []     # formats whose multiplexed frames consist of the multiplexer and groups only (SYM)
         groups = []
         if mux_sig is not None:
             # groups share the bits left free by static signals
@@ -174,6 +185,8 @@ def gen_matrix(rng, C, **ft):
         def mk_signal(d, prefix="S", multiplex=None):
             isf = g("floats", False) and d["size"] in (32, 64) and rng.random() < 0.5
             signed = (g("signed", True) and rng.random() < 0.5) if not isf else False
+            if isf and g("float_signed_default", None) is not None and rng.random() < g("float_signed_default", 0):
+                signed = True   # what Signal(is_float=True) gives when the caller does not mention is_signed
             digits = g("digits", 4)
             factor = rand_decimal(rng, digits, allow_neg=g("neg_factor", False), nonzero=True) if rng.random() < 0.7 else D(1)
             offset = rand_decimal(rng, digits) if rng.random() < 0.5 else D(0)
@@ -209,6 +222,25 @@ def gen_matrix(rng, C, **ft):
                 lo, hi = s.calculate_raw_range()
                 raw = rng.randrange(lo, hi + 1)
                 s.initial_value = s.offset + raw * s.factor
+            if g("initial_on_grid", False):
+                # DBC envelope: every initial value lies inside the limits and on the raw grid (also the default 0)
+                if isf:
+                    raw = D(rng.choice([0, 0, 1, -3, 25])) / D(rng.choice([1, 2, 4, 10]))
+                    if rng.random() < 0.5 or not (s.min <= s.offset + raw * s.factor <= s.max):
+                        raw = D(0)
+                    cand = s.offset + raw * s.factor
+                    s.initial_value = cand if (s.min <= cand <= s.max) else D(0)
+                    if not (s.min <= s.initial_value <= s.max) or (s.initial_value - s.offset) / s.factor * s.factor + s.offset != s.initial_value:
+                        s.offset = D(0)
+                        s.initial_value = D(0)
+                else:
+                    lo, hi = s.calculate_raw_range()
+                    on_grid0 = (D(0) - s.offset) % s.factor == 0 and lo <= (D(0) - s.offset) / s.factor <= hi
+                    if not on_grid0 or rng.random() < 0.4:
+                        raw = rng.choice([lo, hi, rng.randrange(lo, hi + 1)])
+                        s.initial_value = s.offset + raw * s.factor
+                    else:
+                        s.initial_value = D(0)
             if g("cycle_times", False) and g("signal_cycle_times", False) and rng.random() < 0.2:
                 s.cycle_time = rng.choice([10, 50, 200])
             return s
